@@ -278,6 +278,8 @@ structure Handler where
   reason : WebhookType
   operations : Option (List String)   -- `handler.operations` (None or a collection)
   subresource : Option String         -- None = main resource only; "*" = any
+  fn : String                         -- identity of the registered function (`id(handler.fn)`): stacked
+                                      -- decorators register ONE function several times, under the SAME id
   deriving DecidableEq, Repr
 
 structure Cause where
@@ -327,9 +329,21 @@ def gate (h : Handler) (c : Cause) (m : Bool) : Bool :=
   (h.reason != .mutating || c.operation != some "DELETE" || explicitlyForDeletion h) &&
   (matchesSubresource h c && m)
 
-/-- handlers selected for a cause, in registry order -/
+/-- `(id(handler.fn), handler.id)`, the key of `registries._deduplicated` -/
+def Handler.key (h : Handler) : String × String := (h.fn, h.id)
+
+/-- `_deduplicated(src)`: keep the first handler of every key, in order (`seen` = `seen_ids`). -/
+def dedupAux (seen : List (String × String)) : List Handler → List Handler
+  | [] => []
+  | h :: rest =>
+      if seen.contains h.key then dedupAux seen rest
+      else h :: dedupAux (h.key :: seen) rest
+
+/-- `get_handlers(cause) = list(_deduplicated(iter_handlers(cause)))`: the registrations passing the
+    gate, in registry order, and only THEN deduplicated — a function registered several times (stacked
+    decorators) is invoked once per review, through its first MATCHING registration. -/
 def select (hs : List (Handler × Bool)) (c : Cause) : List Handler :=
-  (hs.filter (fun hm => gate hm.1 c hm.2)).map (·.1)
+  dedupAux [] ((hs.filter (fun hm => gate hm.1 c hm.2)).map (·.1))
 
 /-! ## one admission review: selection, execution, response -/
 
